@@ -162,7 +162,7 @@ Proof.
       pose proof (seg_bound vals T 0 _ _ SG0) as [A _]. pose proof (seg_bound vals T 0 _ _ SG1) as [A1 _]. lia. }
     (* Process *)
     destruct (process_step_gen cap ep lam vals Hvals J K pol sf Hsf i1 T Dr B e HS1 (proj1 (Hf e (or_introl eq_refl))) (proj2 (Hf e (or_introl eq_refl))) PK NL CR EW FO Hff1)
-      as [bl [i2 [L [EP [SGall [CHall [(HS2 & Ct2 & Ep2 & EL & NS2)|(nv' & Lt & NS2 & Sf & Ei2)]]]]]]].
+      as [bl [i2 [L [EP [SGall [CHall [_ [(HS2 & Ct2 & Ep2 & EL & NS2)|(nv' & Lt & NS2 & Sf & Ei2)]]]]]]]].
     + (* the epoch goes on *)
       assert (NS2' : NoSeal sf 0 (l_ldf (i_st i2))).
       { rewrite <- EL. intros f Hfr. destruct (N.le_gt_cases f (l_ldf (i_st i))) as [Le|Gt]; [apply NS; lia | apply NS2; lia]. }
